@@ -148,6 +148,17 @@ theorem C15_group_split (nq : ℕ) (key : ℕ → κ) (S SL ST : ℕ → K)
   · exact h m (Finset.mem_range.mp hm)
   · simp
 
+/-- the frame-averaged spectra written to `.spectra.csv` inherit the split as well -/
+theorem C15_spectra_split (T nq : ℕ) (key : ℕ → κ) (S SL ST : ℕ → ℕ → K)
+    (h : ∀ t < T, ∀ m < nq, S t m = SL t m + ST t m) (n : ℕ) :
+    frameMean T (fun t => groupMean nq key (S t) n)
+      = frameMean T (fun t => groupMean nq key (SL t) n) + frameMean T (fun t => groupMean nq key (ST t) n) := by
+  unfold frameMean
+  simp only [sumRange_eq]
+  rw [← add_div, ← Finset.sum_add_distrib]
+  congr 1
+  exact Finset.sum_congr rfl fun t ht => C15_group_split nq key _ _ _ (h t (Finset.mem_range.mp ht)) n
+
 end Group
 
 /-! ### time correlation per wave vector -/
